@@ -8,17 +8,25 @@ CFG = {
             "idlehealth",
             400,
             8000
+        ],
+        [
+            "sweepfine",
+            500,
+            6000
         ]
     ],
-    "rule": "tl: random timelines on a real Channel with stub TimeNow/TimeTicker (unbuffered fake tickers, clock barrier so that each sweep is complete before the next event): 1-4 connections to raw TCP peers (inbound and outbound, with and without a RelayHost), options IdleCheckInterval {0,<0,1ns,7s,30s} x MaxIdleTime {1ns..1h, MaxInt64, <=0} x health Interval {0,<0,1s} x Timeout {0,25ms,2s} x FailuresToClose {0,1,2,3,5,-1}; 8-38 events per timeline: clock advances aimed at idle = MaxIdleTime-1/+0/+1, frames of 13 type bytes read and 12 written, local inbound/outbound calls and relayed calls started and finished, Connection.Close, sweep ticks, health ticks with scripted ping outcomes (ping res, error frame codes, cancelled, call res frame, timeout), one wedged connection (Write stalls, SendBufferSize=1) whose ping cannot be queued; clock stepping backwards / beyond int64 nanoseconds in a few timelines (model only). hloop: each connection's ping-result sequence against the loop model. ring: 0..1025 results through healthHistory. hopts / idleopts: boundary grids of option values through withDefaults/enabled and NewChannel. Non-trivial = timeline with more events than connection set-up; distinct by input.",
+    "rule": "tl: random timelines on a real Channel with stub TimeNow/TimeTicker (unbuffered fake tickers, clock barrier so that each sweep is complete before the next event): 1-4 connections to raw TCP peers (inbound and outbound, with and without a RelayHost), options IdleCheckInterval {0,<0,1ns,7s,30s} x MaxIdleTime {1ns..1h, MaxInt64, <=0} x health Interval {0,<0,1s} x Timeout {0,25ms,2s} x FailuresToClose {0,1,2,3,5,-1}; 8-38 events per timeline: clock advances aimed at idle = MaxIdleTime-1/+0/+1, frames of 13 type bytes read and 12 written, local inbound/outbound calls and relayed calls started and finished, Connection.Close, sweep ticks, health ticks with scripted ping outcomes (ping res, error frame codes, cancelled, call res frame, timeout), one wedged connection (Write stalls, SendBufferSize=1) whose ping cannot be queued; clock stepping backwards / beyond int64 nanoseconds in a few timelines (model only). hloop: each connection's ping-result sequence against the loop model. ring: 0..1025 results through healthHistory. hopts / idleopts: boundary grids of option values through withDefaults/enabled and NewChannel. Non-trivial = timeline with more events than connection set-up; distinct by input.  fine (engine sweepfine): the same real channel, every sweep driven action by action through the schedule points idle.sweep.{afterNow,look,collected,check,pending,recheck,close,done}: the poller is parked at each point and 0-2 other events (clock advances aimed at MaxIdleTime, frames of 8 types in either direction, local / relayed calls that start or finish, Connection.Close, health pings with ok / error outcomes) are forced while it is parked (no close / new connection while the read lock of the first loop is held); 1-3 connections, 1-2 sweeps per timeline, MaxIdleTime {1us,5s,180s}; the label sequence actually executed (first-loop order = the map order the implementation chose) is replayed by run_fine; directed cases: response of a pending call arriving between the two loops, a call that comes and goes on a collected connection while another one is being closed, each with and without a clock advance.",
     "trusted_base": COMMON_TRUSTED + [
-        "modelled by hand (tied by correspondence): updateLastActivityRead/Write, hasPendingCalls (+ messageExchangeSet.countCalls), checkExchanges, Connection.close, connectionError as run from the health goroutine, removeClosedConn, idleSweep.checkIdleConnections/start, healthCheck loop body, healthHistory add/asBools, withDefaults, Time.Sub saturation / UnixNano wrap; regenerated from source each run: isMessageTypeCall, HealthCheckOptions.enabled, ChannelOptions.validateIdleCheck, GetSystemErrorCode, connection-state / message-type / error-code constants, _healthHistorySize, default timeout and FailuresToClose",
-        "go2v hints for C19: hco.Interval => interval; o.IdleCheckInterval / o.MaxIdleTime => parameters; validateIdleCheck's error result seen as a boolean (nil => true)",
+        "modelled by hand (tied by correspondence): updateLastActivityRead/Write, messageExchangeSet.countCalls, checkExchanges, Connection.close, connectionError as run from the health goroutine, removeClosedConn, idleSweep.checkIdleConnections/start, healthCheck loop body, healthHistory add/asBools, withDefaults, Time.Sub saturation / UnixNano wrap; regenerated from source each run: isMessageTypeCall, HealthCheckOptions.enabled, ChannelOptions.validateIdleCheck, GetSystemErrorCode, Connection.hasPendingCalls, Relayer.canClose, Connection.IsActive, lastActivityTime, idleSweep.isIdle (C19_gen_decisions ties them to the hand model; Model/IdleSweepFine.v is written over them), connection-state / message-type / error-code constants, _healthHistorySize, default timeout and FailuresToClose",
+        "go2v hints for C19: hco.Interval => interval; o.IdleCheckInterval / o.MaxIdleTime => parameters; validateIdleCheck's error result seen as a boolean (nil => true); the operands of the sweep decisions are parameters (c.inbound.countCalls() => inb, c.outbound.countCalls() => outb, c.relay.canClose() => canClose, r == nil => isNil, r.countPending() => pending, c.readState() => state, the two activity stamps => lr lw, Time.Before => <?, now.Sub(lastActivityTime(conn)) => idleFor)",
+        "Model/IdleSweepFine.v: the atomic actions of checkIdleConnections (clock read; read lock + snapshot; one isIdle per connection in any order; unlock; IsActive; inbound.countCalls; outbound.countCalls; relay.canClose; the re-check; Connection.close).  The two stamp loads of isIdle are one action (monotone single-store stamps), Connection.close (state lock + checkExchanges) is one action as in Model/Idle.v; the harness forces interleavings only at the eight schedule points (the three reads of hasPendingCalls are consecutive on the implementation)",
+        "Spec/IdleHealthHist.v: the pings of a connection as a history shows them (ping_outcomes, ping_inflight), health_closes_now, what ping traffic is",
         "harness: stub clock + unbuffered fake tickers give one atomic step per event; the health goroutine's counter is read from the fields of its own 'Failed active health check.' log line; frames of arbitrary type are queued on the real send channel by an overlay wrapper",
         "Spec/IdleHealthSpec.v: the reading of the statement (call frame = types 0x03 0x04 0x13 0x14 0xff; last_call_activity; health_closes_at)"
     ],
     "assumptions": [
-        "each sweep, ping start and ping end is atomic with respect to the other events (what a stub ticker yields); interleavings INSIDE checkIdleConnections (traffic between its two loops) are not modelled",
+        "Model/IdleHealthSys.v (theorems C19_stamp .. C19_pings_noninterference): each sweep, ping start and ping end is atomic with respect to the other events (what a stub ticker yields).  Model/IdleSweepFine.v (C19_fine_*) drops this for the sweep: its atomic actions interleave with all other events; ping start / ping end, Connection.close and checkExchanges remain single actions",
+        "under interleaving the statement's 'if and only if' is proved as it stands only for connections no other goroutine touches during the sweep (C19_fine_sweep_iff); for touched connections the 'only if' is proved in its weakest correct form (C19_fine_close_only_if / _history / _instant: each test at its own instant; the whole condition at the instant of the re-check provided no call started on the connection between the inbound-count read and the re-check); no 'if' is claimed for touched connections",
         "the stub clock is monotone and within int64 nanoseconds for the statement-level theorems (clock_ok); other clocks are covered by model/implementation correspondence only",
         "a ping answered by an error frame with code Cancelled stops the health check of that connection without closing it (modelled as outcome PStop, as the code does)",
         "FailuresToClose < 0 (closes at the first failure) is outside the statement's domain: correspondence only",
